@@ -731,6 +731,38 @@ class Fn:
         return out
 
 
+ENUMS = {"PaddingType": {"VISA": 1, "EMV": 2}, "EncryptionType": {"VISA": 1, "MASTERCARD": 2, "EMV": 3}}
+
+
+def check_module(mod, tree):
+    """nothing at module level may carry state or wrap a function: only imports, `__all__`, the docstring,
+    plain function definitions (no decorators) and the two Enum classes with exactly their documented members"""
+    for n in tree.body:
+        if isinstance(n, (ast.Import, ast.ImportFrom)):
+            continue
+        if isinstance(n, ast.Expr) and isinstance(n.value, ast.Constant) and isinstance(n.value.value, str):
+            continue
+        if isinstance(n, ast.Assign) and len(n.targets) == 1 and isinstance(n.targets[0], ast.Name) and n.targets[0].id == "__all__":
+            continue
+        if isinstance(n, ast.FunctionDef):
+            if n.decorator_list:
+                raise Unsupported(f"{mod}.{n.name}: decorator {ast.unparse(n.decorator_list[0])}")
+            continue
+        if isinstance(n, ast.ClassDef) and n.name in ENUMS and [ast.unparse(b) for b in n.bases] == ["_Enum"] and not n.decorator_list:
+            members = {}
+            for st in n.body:
+                if isinstance(st, ast.Expr) and isinstance(st.value, ast.Constant):
+                    continue
+                if isinstance(st, ast.Assign) and len(st.targets) == 1 and isinstance(st.targets[0], ast.Name) and const_int(st.value) is not None:
+                    members[st.targets[0].id] = const_int(st.value)
+                else:
+                    raise Unsupported(f"{mod}.{n.name}: member {ast.unparse(st)[:40]}")
+            if members != ENUMS[n.name]:
+                raise Unsupported(f"{mod}.{n.name}: members {members} differ from the documented {ENUMS[n.name]}")
+            continue
+        raise Unsupported(f"{mod}: module-level statement `{ast.unparse(n)[:60]}`")
+
+
 def translate(repo):
     out = ["import PyemvModel",
            "/-! GENERATED by harness/translate_py.py from pyemv/{tools,mac,ac,kd,sm,cvv}.py — do not edit. -/",
@@ -742,6 +774,7 @@ def translate(repo):
            "def pyDiv (a b : Nat) : R Nat := if b = 0 then .error .zeroDivision else .ok (a / b)", ""]
     for mod, names in FUNCS.items():
         tree = ast.parse(open(os.path.join(repo, "pyemv", mod + ".py")).read())
+        check_module(mod, tree)
         fns = {n.name: n for n in tree.body if isinstance(n, ast.FunctionDef)}
         out.append(f"namespace {mod}")
         for name in names:
